@@ -29,4 +29,19 @@ def toNewickF : Nat → FM.Fmt → Array (PNode L) → Nat → Option (List Char
         | none => none
     else none
 
+/-- `Tree::to_nexus` (repaired: removed slots are neither counted nor listed): the fixed frame around the
+    number of live tips, the names of the named live tips in arena order, and the full Newick text.
+    `slots` pairs every arena slot with its `deleted` flag. -/
+def nexus (slots : List (Bool × PNode L)) (newick : List Char) : List Char :=
+  let tips := slots.filter (fun s => !s.1 && s.2.children.isEmpty)
+  let labels := tips.filterMap (fun s => s.2.name)
+  let joined := joinSep labels
+  "#NEXUS\nBEGIN TAXA;\n    DIMENSIONS NTAX=".toList ++ (toString tips.length).toList ++
+  ";\n    TAXLABELS ".toList ++ joined ++ ";\nEND;\nBEGIN TREES;\n    TREE tree1 = ".toList ++ newick ++ "\nEND;\n".toList
+where
+  joinSep : List Label → List Char
+    | [] => []
+    | [x] => x
+    | x :: y :: r => x ++ ' ' :: joinSep (y :: r)
+
 end NW
